@@ -194,7 +194,7 @@ def corruption(rep, rnd, quick: bool, d: Path) -> None:
         nodes = list(_nodes(doc))
         big = len(nodes) > 400
         if big:
-            nodes = rnd.sample(nodes, (120 if quick else 1500))
+            nodes = rnd.sample(nodes, min(len(nodes), 120 if quick else 1500))
         for path in nodes:
             menu = list(range(len(JUNK))) if (not big or not quick) else rnd.sample(range(len(JUNK)), 4)
             if name in small or not quick:
